@@ -224,6 +224,7 @@ def run(rep, facts, tier):
     builtsent.run_rule(rep, fx, 'R04.14')
     builtsent.run_wire(rep, fx, 'R04.15')
     rule_04_16(rep, fx)
+    rule_04_17(rep, fx)
     # (b) a recorded GAP is always sent: on `!no_longer_relevant.is_empty()` or `all_irrelevant_before.is_some()` the message goes out
     alle = list(switch_edges(rw, fx, og))
     must_send = [(s_, t_) for s_, t_, cond, lab in alle if (cond[0] == 'call' and cond[1].endswith('::is_empty') and lab is False and term_has(cond, lambda x: x[0] == 'call' and x[1].endswith('BTreeSet::new')))
@@ -852,3 +853,45 @@ def rule_04_16(rep, fx, rid='R04.16'):
         rep.check(okb, rid, 'gap_msg/base-advances-only-over-members', 'base = first + 1, advanced only while the set contains it',
                   'MessageBuilder::gap_msg: gapList.base (%s) is not first + 1 advanced only over numbers the set contains: the range [gap_start, base) declares numbers irrelevant that are '
                   'not in the set, a reader that lost one of them stops asking for it' % term_str(base)[:160], b.where())
+
+
+def rule_04_17(rep, fx, rid='R04.17'):
+    """`last_seq` is "the highest sequence number written": it only grows (added after seed C20g, which assigned it unconditionally in add_change: with write commands enqueued
+    as 1, 3, 2 the HEARTBEAT advertises last = 2 and wait_for_acknowledgments waits only up to 2)."""
+    rep.rule(rid, 'highest written only grows: outside its constructor every store to HistoryBuffer.last_seq lies behind the edge on which the stored value was found greater than '
+                  'the current last_seq (new > last / last < new; the non-strict forms on their false edge)')
+    n = 0
+    for b in fx.bodies:
+        if not b.key.startswith('rtps::writer::HistoryBuffer::') or b.kind not in ('fn', 'assoc_fn') or b.name == 'new':
+            continue
+        og = None
+        for bb, si, st in b.statements():
+            if st['s'] != 'assign':
+                continue
+            pr = st['lhs'].get('p') or []
+            if not any(isinstance(p, dict) and p.get('n') == 'last_seq' for p in pr):
+                continue
+            n += 1
+            rep.analysed(b)
+            og = og or Origins(b, summaries=True)
+            P = Pos(b)
+            v = og.of_operand(st['rv']['x'], bb, si) if st['rv'].get('r') == 'use' else None
+            grow = []
+            for s_, t_, c, lab in switch_edges(b, fx, og):
+                if c[0] == 'call' and c[1].rsplit('::', 1)[-1] in ('lt', 'gt', 'le', 'ge') and len(c[2]) == 2:
+                    x, y = c[2]
+                    is_last = lambda t: term_has(t, lambda z: (z[0] == 'field' and z[1] == 'last_seq') or (z[0] == 'call' and z[1].endswith('last_change_sequence_number')))
+                    m = c[1].rsplit('::', 1)[-1]
+                    if v is not None and x == v and is_last(y) and not is_last(x):
+                        rel = m            # v m last
+                    elif v is not None and y == v and is_last(x) and not is_last(y):
+                        rel = {'lt': 'gt', 'gt': 'lt', 'le': 'ge', 'ge': 'le'}[m]
+                    else:
+                        continue
+                    if (rel == 'gt' and lab is True) or (rel == 'le' and lab is False):
+                        grow.append((s_, t_))
+            ok = bool(grow) and P.every_path_passes(None, (bb, si), via_edges=grow, from_entry=True)
+            rep.check(ok, rid, '%s/last_seq-only-grows' % b.name, 'store to last_seq only behind new > last_seq',
+                      'HistoryBuffer::%s stores to last_seq on a path where the value was not found greater than the current one: "highest written" can go back (commands enqueued out of '
+                      'sequence-number order), the HEARTBEAT then advertises less than was written and wait_for_acknowledgments waits for less' % b.name, b.where(bb, si))
+    rep.floor(rid, n, 1, 'stores to HistoryBuffer.last_seq outside the constructor')
